@@ -124,7 +124,7 @@ CLAIMS = {
    text="Proof (Verus) of the real RequestBuilder: new, insert_and_modify_entry (merge by app id: first insertion fixes position and app data incl. cohort; later insertions only run the modifier on that entry), add_update_check / add_ping / add_event (exact builder view after the call, events in insertion order, flags from the params), request_id / session_id, "
         "From<AppEntry> for protocol App (id, version text, fingerprint, cohort, update check, events, ping ad = rd = last day number iff ping, extra fields), build_intermediate (headers = content-type JSON, updater name, interactivity fg iff on-demand, app id of the FIRST entry; request object = protocol 3.0, updater, updater version, install source, ismachine true, ids, os, apps in entry order), "
         "From<Intermediate> for http::Request (POST to the uri, headers in order, body = serialisation of that object) and build (composition; metadata iff a CUP handler); &self: building neither consumes nor alters the builder. The builder-view contracts are the ones the state-machine group assumes of its RequestBuilder stand-in.",
-   note=TRUST + "The JSON text itself (serde attribute semantics: renames, skip_serializing_if, flatten, Serialize_repr codes, GUID braces) is serde-derive output and serde_json: json_of_body is an uninterpreted function of the request object, so key names, omission of unset fields and numeric event codes are NOT decided here. Version's Display (itertools format) is uninterpreted. "
+   note=TRUST + "The JSON text itself (serde attribute semantics: renames, skip_serializing_if, flatten, Serialize_repr codes, GUID braces) is serde-derive output and serde_json: json_of_body is an uninterpreted function of the request object, so key names, omission of unset fields and numeric event codes are NOT decided here. The version text in the request is the four-part canonical form (Version's Display, proved in group ver under C20; to_string() is assumed to return what Display writes). "
         "std adapter semantics assumed for two outlined fragments (iter_mut().find, iter().cloned().map(From::from).collect()); http::request::Builder is a stand-in (post/header/body record method, uri, headers in call order, body). Cupv2RequestHandler::decorate_request may change only the URI (its parameter type `&mut impl CupRequest` offers set_uri as the only mutator).",
    technique="contract-based deductive verification (Verus) of mechanically extracted functions", design="4/C15"),
 }
